@@ -763,3 +763,91 @@ mod tests {
         events
     }
 }
+
+/// Verification hooks (compiled only with `--cfg eigerco_lumina_verif`).
+#[cfg(eigerco_lumina_verif)]
+pub(crate) mod verif_hooks {
+    use super::*;
+    use std::task::Waker;
+
+    /// Public wrapper of [`PoolTracker`] with plain-data results.
+    pub struct VPoolTracker<S>(PoolTracker<S>);
+
+    /// What one call of `PoolTracker::poll` returned.
+    #[derive(Debug, Clone, PartialEq, Eq)]
+    pub enum VPoolPoll {
+        /// `Poll::Pending`
+        Pending,
+        /// `Poll::Ready(None)`: a header was processed
+        Progress,
+        /// `Poll::Ready(Some(Event::AddPeers(..)))`
+        AddPeers(Vec<PeerId>),
+        /// `Poll::Ready(Some(Event::BlockPeers(..)))`
+        BlockPeers(Vec<PeerId>),
+        /// any other event
+        Other,
+    }
+
+    /// Result of `PoolTracker::get_pool`.
+    #[derive(Debug, Clone, PartialEq, Eq)]
+    pub enum VPoolQuery {
+        Peers(Vec<PeerId>),
+        CandidatesNotValidated,
+        HeightTooOld,
+        HeightNotTracked,
+    }
+
+    impl<S> VPoolTracker<S>
+    where
+        S: Store + 'static,
+    {
+        pub fn new(store: Arc<S>) -> Self {
+            VPoolTracker(PoolTracker::new(store))
+        }
+
+        pub fn add_peer_for_hash(&mut self, peer_id: PeerId, data_hash: Hash, height: u64) {
+            self.0.add_peer_for_hash(peer_id, data_hash, height)
+        }
+
+        pub fn get_pool(&self, height: u64) -> VPoolQuery {
+            match self.0.get_pool(height) {
+                Ok(peers) => VPoolQuery::Peers(peers.copied().collect()),
+                Err(GetPoolError::CandidatesNotValidated) => VPoolQuery::CandidatesNotValidated,
+                Err(GetPoolError::HeightTooOld) => VPoolQuery::HeightTooOld,
+                Err(GetPoolError::HeightNotTracked) => VPoolQuery::HeightNotTracked,
+            }
+        }
+
+        pub fn remove_peer(&mut self, peer_id: &PeerId) {
+            self.0.remove_peer(peer_id)
+        }
+
+        /// One call of `poll` with a no-op waker (call inside a tokio runtime).
+        pub fn poll_once(&mut self) -> VPoolPoll {
+            let mut cx = Context::from_waker(Waker::noop());
+            match self.0.poll(&mut cx) {
+                Poll::Pending => VPoolPoll::Pending,
+                Poll::Ready(None) => VPoolPoll::Progress,
+                Poll::Ready(Some(Event::AddPeers(p))) => VPoolPoll::AddPeers(p),
+                Poll::Ready(Some(Event::BlockPeers(p))) => VPoolPoll::BlockPeers(p),
+                Poll::Ready(Some(_)) => VPoolPoll::Other,
+            }
+        }
+
+        pub fn subjective_head(&self) -> Option<u64> {
+            self.0.subjective_head
+        }
+
+        /// Heights that currently have a pool, with `true` for validated ones.
+        pub fn tracked_heights(&self) -> Vec<(u64, bool)> {
+            let mut v: Vec<_> = self
+                .0
+                .hash_pools
+                .iter()
+                .map(|(h, p)| (*h, matches!(p, PeerPool::Validated(_))))
+                .collect();
+            v.sort();
+            v
+        }
+    }
+}
